@@ -1,4 +1,5 @@
 import QrlewModel.Model.Rel
+import QrlewModel.Lemmas.Lists
 /-!
 # C07 — declared size bounds contain what execution produces (size lemmas)
 
@@ -76,6 +77,13 @@ theorem join_size_unique [DecidableEq κ] (kl : α → κ) (kr : β → κ) (L :
       have := filter_key_le_one kr R h (kl a)
       omega
   unfold joinSizeUnique; omega
+
+/-- `Reduce::size`: a GROUP BY returns at most one row per input row (one per distinct key) -/
+theorem reduce_size [DecidableEq κ] (key : α → κ) (b : List α) (inputMax : Nat) (h : b.length ≤ inputMax) :
+    ((b.map key).eraseDups).length ≤ inputMax := by
+  have := Qrlew.Lists.eraseDups_length_le (b.map key)
+  simp only [List.length_map] at this
+  omega
 
 /-- the same bound is FALSE for a LEFT OUTER join (unique key on the left): L = {1,2,3}, R = {1,1,1,1} gives 6 rows > 4
 (observed on the real code: declared int[0 10], 11 rows) -/
